@@ -554,12 +554,29 @@ func SchedPoint(kind byte, obj int) {
 	}
 }
 
+var calmPoints int64
+
+const calmBudget = 20000000
+
+// CalmReset starts a new calm evaluation (step budget).
+//
+//go:norace
+func CalmReset() { calmPoints = 0 }
+
 // Point is compiled in front of every statement of the library copy.
 //
 //go:norace
 func Point(id int) {
 	s := S
 	if s == nil {
+		// calm mode: no scheduler, but still a step budget, so that a
+		// library call that never finishes ends as a panic value instead of
+		// hanging the worker
+		calmPoints++
+		if calmPoints > calmBudget {
+			calmPoints = 0
+			panic("cvss-sim: calm evaluation exceeded its step budget (library call does not finish)")
+		}
 		return
 	}
 	t := s.cur
